@@ -142,13 +142,13 @@ func runC14(c *Ctx) (int, error) {
 	_ = os.WriteFile(filepath.Join(dir, "dep_c.bop"), []byte(c14DepC), 0o644)
 	_ = os.WriteFile(filepath.Join(dir, "flat.bop"), []byte(c14NoImports()), 0o644)
 	type scen struct {
-		Root       string   `json:"root"`
-		API        string   `json:"api"`
-		Opts       []string `json:"opts"`
-		Mode       string   `json:"mode"`
-		Spare      int      `json:"spare"`
-		Goroutines int      `json:"goroutines"`
-		Repeat     int      `json:"repeat"`
+		Root       string     `json:"root"`
+		API        string     `json:"api"`
+		Opts       []string   `json:"opts"`
+		Mode       string     `json:"mode"`
+		Spare      int        `json:"spare"`
+		Goroutines int        `json:"goroutines"`
+		Repeat     int        `json:"repeat"`
 		Pre        [][]string `json:"pre"`
 		imports    bool
 	}
